@@ -507,7 +507,8 @@ class RaftNode(Entity):
             self._step_down(term)
             return [self._schedule_election_timeout()]
 
-        if self._state != RaftState.LEADER:
+        if self._state != RaftState.LEADER or term != self._current_term:
+            # A reply to a request of an earlier term says nothing about this term
             return []
 
         if follower is None:
